@@ -25,11 +25,11 @@ def run(tier, seed):
                 'name_and_range_ok': 'template %d, 8 x 8 pool values through the defined name / the two-cell range vs the cells' % t,
                 'override_formula_ok': 'template %d, formula cell B1 overridden by each of 8 pool values' % t,
                 'outputs_ok': 'template %d, all 127 non-empty output subsets x 8 pool values' % t})
-            for op1 in range(12):
+            for op1 in range(14):
                 h = Harness(ck, 'c07_hist_t%d_op%d' % (t, op1), src.replace('__T__', str(t)).replace('__OP1__', str(op1))); hs.append(h)
                 batch.add(h, T_, only=['history2_ok'] if quick else ['history3_ok'],
-                          bounds='template %d, history starting with operation %d, %s, then one of 13 override sets; compared with a fresh model' % (
-                              t, op1, 'any second operation of 12' if quick else 'any second and third operation of 12'))
+                          bounds='template %d, history starting with operation %d, %s, then one of 15 override sets; compared with a fresh model' % (
+                              t, op1, 'any second operation of 14' if quick else 'any second and third operation of 14'))
         batch.run()
     finally:
         for h in hs:
